@@ -18,6 +18,8 @@ type modSet struct {
 	// goes through anything else. A heap written only through loop-invariant locals keeps all other objects.
 	via   map[string][]types.Object
 	whole map[string]bool
+	// fields[h][obj]: field indexes of the struct *obj (a loop-invariant local pointer) written as obj.f = ...
+	fields map[string]map[types.Object]map[int]bool
 }
 
 func (ms *modSet) touch(hn, hs string) {
@@ -31,7 +33,8 @@ func (ms *modSet) allocTouch(hn, hs string) {
 }
 
 func newModSet() *modSet {
-	return &modSet{vars: map[types.Object]bool{}, heaps: map[string]string{}, via: map[string][]types.Object{}, whole: map[string]bool{}}
+	return &modSet{vars: map[types.Object]bool{}, heaps: map[string]string{}, via: map[string][]types.Object{}, whole: map[string]bool{},
+		fields: map[string]map[types.Object]map[int]bool{}}
 }
 
 // noteWrite records a write to heap hn whose target object is denoted by base.
@@ -107,6 +110,22 @@ func (fr *Frame) modLhs(e ast.Expr, ms *modSet, info *types.Info) {
 			}
 			if lastPtr != nil {
 				hn, hs := fr.eng.ptrHeap(lastPtr)
+				// x.f = ... with x a plain local pointer variable and f a direct field: only that field of *x changes
+				if id, isId := ast.Unparen(x.X).(*ast.Ident); isId && len(path) == 1 {
+					if o, isVar := info.ObjectOf(id).(*types.Var); isVar && o != nil && !fr.isBoxed(o) && !(o.Pkg() != nil && o.Parent() == o.Pkg().Scope()) {
+						if _, isPtr := o.Type().Underlying().(*types.Pointer); isPtr {
+							ms.heaps[hn] = hs
+							if ms.fields[hn] == nil {
+								ms.fields[hn] = map[types.Object]map[int]bool{}
+							}
+							if ms.fields[hn][o] == nil {
+								ms.fields[hn][o] = map[int]bool{}
+							}
+							ms.fields[hn][o][path[0]] = true
+							return
+						}
+					}
+				}
 				ms.touch(hn, hs)
 			}
 			if _, isPtr := t.Underlying().(*types.Pointer); !isPtr {
@@ -395,10 +414,52 @@ func (fr *Frame) havocMod(s *State, ms *modSet) {
 		}
 		sort.Strings(names)
 		for _, k := range names {
+			if !ms.whole[k] && len(ms.fields[k]) > 0 && len(ms.via[k]) == 0 {
+				// only fields of loop-invariant local pointers are written: everything else keeps its value
+				ok := true
+				type upd struct {
+					ref string
+					t   types.Type
+					idx []int
+				}
+				var upds []upd
+				var objs []types.Object
+				for o := range ms.fields[k] {
+					objs = append(objs, o)
+				}
+				sort.Slice(objs, func(i, j int) bool { return objs[i].Pos() < objs[j].Pos() })
+				for _, o := range objs {
+					v, have := s.vars[o]
+					if ms.vars[o] || !have {
+						ok = false
+						break
+					}
+					var idx []int
+					for i := range ms.fields[k][o] {
+						idx = append(idx, i)
+					}
+					sort.Ints(idx)
+					upds = append(upds, upd{v.S, v.T.Underlying().(*types.Pointer).Elem(), idx})
+				}
+				if ok {
+					h := s.heap(k, ms.heaps[k])
+					for _, u := range upds {
+						cur := &Val{T: u.t, S: fmt.Sprintf("(select %s %s)", h, u.ref)}
+						si := fr.eng.structSort(u.t)
+						for _, i := range u.idx {
+							nv := fr.freshVal(s, si.Fields[i].Type(), "fld_"+si.Fields[i].Name())
+							cur = fr.eng.setField(cur, i, nv.S)
+						}
+						h = fmt.Sprintf("(store %s %s %s)", h, u.ref, cur.S)
+					}
+					s.setHeap(k, ms.heaps[k], h)
+					continue
+				}
+			}
 			if !ms.whole[k] {
 				// written only through loop-invariant local variables and fresh allocations: every other
 				// object that exists at the loop head keeps its content
-				ok := true
+				ok := len(ms.fields[k]) == 0
 				var except []string
 				for _, o := range ms.via[k] {
 					v, have := s.vars[o]
